@@ -35,7 +35,7 @@ ASSUMPTIONS = ['exact arithmetic: the model is evaluated over Q / proved over R;
                'window), not proved']
 TRUSTED = ['translate/ufunc_deriv.py (Python ast -> Gallina tables), fail-closed',
            'C06/Model.v hand-written mirror of the derivative methods, tied by structural correspondence',
-           'harness serialiser of Python operator objects into oexpr terms; the measured variant switch rsv',
+           'harness serialiser of Python operator objects into oexpr/fexpr terms; the measured variant switch mav',
            'NumPy entry-wise kernels, ODL element arithmetic']
 
 
@@ -519,19 +519,6 @@ class Gen(object):
 BIG = 1e5
 
 
-def rsv_variant():
-    """Variant switch (DESIGN 2.5): which object OperatorRightScalarMult.derivative builds in the current
-    source -- OperatorLeftScalarMult (False, the pinned code) or OperatorRightScalarMult (True, the proposed
-    repair for complex scalars).  Both are proved sound; anything else fails the correspondence."""
-    if 'rsv' not in _CACHE:
-        import odl
-        O = odl.operator.operator
-        X = odl.rn(1)
-        D = O.OperatorRightScalarMult(odl.ufunc_ops.square(X), 2.0).derivative(X.one())
-        _CACHE['rsv'] = isinstance(D, O.OperatorRightScalarMult)
-    return _CACHE['rsv']
-
-
 def _finite_small(xs):
     return all(math.isfinite(v) and abs(v) <= BIG for v in xs)
 
@@ -545,13 +532,29 @@ def run_case(op, x, d):
     """Evaluate the implementation; returns (coq_term, info) or None when the case must be discarded
     (non-finite or huge values: 1/0 has no counterpart in exact arithmetic)."""
     import odl
-    with np.errstate(all='ignore'):
+    try:
+        return _run_case(op, x, d)
+    except FloatingPointError:
+        return None          # a division by zero / invalid operation inside: no counterpart in exact arithmetic
+
+
+def _run_case(op, x, d):
+    import odl
+    with np.errstate(divide='raise', invalid='raise', over='ignore', under='ignore'):
         e = ser(op)
-        val = vals(op(x))
+        try:
+            val = vals(op(x))
+        except (TypeError, AttributeError, IndexError, odl.OpDomainError, odl.OpRangeError, odl.OpTypeError,
+                odl.set.space.LinearSpaceTypeError):
+            # only possible for second-order cases: the object returned by derivative() cannot be applied.
+            # An empty value list never matches the model's value: the case fails
+            val = []
         lin = bool(op.is_linear)
         try:
             Dop = op.derivative(x)
             raised = None
+        except FloatingPointError:
+            raise
         except Exception as ex:       # the model predicts WHETHER it raises, not the class
             Dop, raised = None, type(ex).__name__
         if Dop is not None:
@@ -574,8 +577,8 @@ def run_case(op, x, d):
         allv += _floats_of(op)
     if not _finite_small(allv):
         return None
-    term = ('{| c_e := %s; c_rsv := %s; c_x := %s; c_d := %s; c_lin := %s; c_val := %s; c_der := %s |}'
-            % (e, C.b(rsv_variant()), C.qs(vals(x)), C.qs(vals(d)), C.b(lin), C.qs(val), dterm))
+    term = ('{| c_e := %s; c_x := %s; c_d := %s; c_lin := %s; c_val := %s; c_der := %s |}'
+            % (e, C.qs(vals(x)), C.qs(vals(d)), C.b(lin), C.qs(val), dterm))
     if not _nums_in(term):
         return None
     return term, {'op': repr(op)[:300], 'x': vals(x), 'd': vals(d), 'raised': raised}
@@ -849,19 +852,15 @@ def ufunc_cases(rng, tier):
 
 # ------------------------------------------------------------ functionals
 def functional_variants():
-    """(rzv, mav): which behaviour the current source exhibits on the replay inputs of two recorded findings
-    (DESIGN 2.5): RosenbrockFunctional.gradient on a weighted space returns the bare partial derivatives
-    (False) or divides them by the weights (True); MatrixOperator.adjoint between weighted spaces is the
-    plain transpose (False) or the true adjoint (True).  The theorem covers all four combinations."""
+    """mav: which behaviour the current source exhibits on the replay input of the recorded finding
+    FunctionalComp-MatrixOperator-weighted-space (DESIGN 2.5): MatrixOperator.adjoint between weighted spaces
+    is the plain transpose (False) or the true adjoint (True).  The theorem covers both."""
     if 'fvar' not in _CACHE:
         import odl
         X = odl.rn(2, weighting=2.0)
-        g = np.asarray(odl.solvers.RosenbrockFunctional(X, scale=1.0).gradient(X.element([0.0, 0.0])))
-        rzv = not np.allclose(g, [-2.0, 0.0])           # partials at (0, 0): (-2, 0)
         M = odl.MatrixOperator(np.array([[1.0, 2.0]]), domain=X, range=odl.rn(1))
         a = np.asarray(M.adjoint(odl.rn(1).element([1.0])))
-        mav = not np.allclose(a, [1.0, 2.0])             # plain transpose: (1, 2); true adjoint: (0.5, 1)
-        _CACHE['fvar'] = (bool(rzv), bool(mav))
+        _CACHE['fvar'] = bool(not np.allclose(a, [1.0, 2.0]))   # plain transpose: (1, 2); true adjoint: (0.5, 1)
     return _CACHE['fvar']
 
 
@@ -986,10 +985,10 @@ def functional_cases(rng, tier):
                 nums = [val, dd] + grad
                 if not _finite_small(nums):
                     continue
-                rzv, mav = functional_variants()
-                term = ('{| f_e := %s; f_w := %s; f_rzv := %s; f_mav := %s; f_x := %s; f_d := %s; f_val := %s; '
+                mav = functional_variants()
+                term = ('{| f_e := %s; f_w := %s; f_mav := %s; f_x := %s; f_d := %s; f_val := %s; '
                         'f_grad := %s; f_dd := %s; f_inner := %s |}'
-                        % (e, C.qs(wts(X)), C.b(rzv), C.b(mav), C.qs(vals(x)), C.qs(vals(d)), C.q(val), C.qs(grad),
+                        % (e, C.qs(wts(X)), C.b(mav), C.qs(vals(x)), C.qs(vals(d)), C.q(val), C.qs(grad),
                            C.q(dd), C.b(inner)))
         except (ValueError, OverflowError, ZeroDivisionError):
             continue                  # non-finite number somewhere
@@ -1020,10 +1019,10 @@ def functional_cases(rng, tier):
                 if not _finite_small([val, dd] + grad):
                     continue
                 inner = type(D).__name__ == 'InnerProductOperator'
-                rzv, mav = functional_variants()
-                term = ('{| f_e := %s; f_w := %s; f_rzv := %s; f_mav := %s; f_x := %s; f_d := %s; f_val := %s; '
+                mav = functional_variants()
+                term = ('{| f_e := %s; f_w := %s; f_mav := %s; f_x := %s; f_d := %s; f_val := %s; '
                         'f_grad := %s; f_dd := %s; f_inner := %s |}'
-                        % (fser(f), C.qs(wts(X)), C.b(rzv), C.b(mav), C.qs(vals(x)), C.qs(vals(d)), C.q(val),
+                        % (fser(f), C.qs(wts(X)), C.b(mav), C.qs(vals(x)), C.qs(vals(d)), C.q(val),
                            C.qs(grad), C.q(dd), C.b(inner)))
                 cs.add(term, {'functional': repr(f)[:300], 'x': vals(x)}, (term,))
     return cs
@@ -1056,8 +1055,12 @@ def cd_check(op, x, d, rtol=1e-6):
     with np.errstate(all='ignore'):
         try:
             D = op.derivative(x)
-        except (NotImplementedError, ValueError) as e:       # OpNotImplementedError is a NotImplementedError
+        except NotImplementedError as e:                     # OpNotImplementedError is a NotImplementedError
             return None, 'raises %s' % type(e).__name__
+        except ValueError as e:
+            if 'not differentiable' in str(e):               # NormOperator at 0, DistOperator at its vector
+                return None, 'raises ValueError (documented non-differentiable point)'
+            raise
         if not isinstance(D, odl.Operator):
             return False, 'derivative returned a %s, not an Operator' % type(D).__name__
         if not D.is_linear:
@@ -1083,13 +1086,13 @@ def cd_check(op, x, d, rtol=1e-6):
         if est > 1e-4 * scale:
             return None, 'finite differences not converged at these steps (ill-conditioned point)'
         floors = [1e-11 * scale / h for h in HS]
-        tol = rtol * scale + floors[-1] + est
+        tol = rtol * scale + floors[-1] + 3 * est      # est may itself be a noise sample: margin 3
         close = errs[-1] <= tol
         # "at the rate expected of a central difference": where the error at h = 1e-3 is in the asymptotic
         # window (far above the rounding noise, below 1% of the scale) it must shrink by >= 20 per decade
         # (h^2 gives 100; measured minimum over 10^4 probes: 94)
         rate = True
-        if 1e-6 * scale < errs[1] < 1e-2 * scale and errs[2] > 0:
+        if 1e-6 * scale < errs[1] < 1e-2 * scale and errs[2] >= 10 * errs[3] > 0:   # noise not yet reached at h = 1e-4
             rate = errs[1] / errs[2] >= 20.0
         return bool(close and rate), 'central-difference errors %s at h=%s, scale %.3g, tol %.2e%s' % (
             ['%.2e' % e for e in errs], list(HS), scale, tol, '' if rate else ', error does not shrink like h^2')
@@ -1339,7 +1342,10 @@ def tree_probes(rng, tier):
         rp = (REPLAY_HEAD + "rec = %r\nop = H.build(rec); sp = H.space_of(%r)\n"
               "ok, observed = H.cd_check(op, H._el(sp, %r), H._el(sp, %r))\nok = bool(ok)\n" % (rec, skey, xv, dv))
         root = rec[0] if rec[0] != 'ovl' else 'ovl' + rec[1]
-        out.append(C.Probe(bool(ok), 'cd-tree-%s-%s' % (root, skey),
+        key = 'cd-tree-%s-%s' % (root, skey)
+        if not ok and 'pwnorm' in classes_in(rec) and skey == 'rn3w' and 'cannot divide' in str(detail):
+            key = 'PointwiseNorm-derivative-array-weighted-base-space'
+        out.append(C.Probe(bool(ok), key,
                            'central differences vs derivative on a random tree (%s) over %s' %
                            (','.join(sorted(classes_in(rec))), skey), rp, detail))
     return out
@@ -1412,6 +1418,12 @@ def catalogue():
                             "odl.PointwiseNorm(odl.ProductSpace(%s, 2, exponent=%d))" % (sp, ex), False))
             cat.append(('PointwiseNorm-vfweighted-%s' % sk,
                         "odl.PointwiseNorm(odl.ProductSpace(%s, 2, weighting=[2.0, 3.0]))" % sp, False))
+    # weighted BASE spaces (the weights of the base space do not enter the point-wise norm)
+    cat.append(('PointwiseNorm-const-weighted-base-space', "odl.PointwiseNorm(odl.ProductSpace(SP['rn3c'], 2))", False))
+    cat.append(('PointwiseNorm-const-weighted-base-space', "odl.PointwiseNorm(odl.ProductSpace(SP['rn3c'], 2), exponent=3)", False))
+    cat.append(('PointwiseNorm-p1-array-weighted-base-space', "odl.PointwiseNorm(odl.ProductSpace(SP['rn3w'], 2), exponent=1)", False))
+    cat.append(('PointwiseNorm-derivative-array-weighted-base-space', "odl.PointwiseNorm(odl.ProductSpace(SP['rn3w'], 2))", False))
+    cat.append(('PointwiseNorm-derivative-array-weighted-base-space', "odl.PointwiseNorm(odl.ProductSpace(SP['rn3w'], 3), exponent=3)", False))
     # fields
     for p in (2, 3, 0.5, -1):
         cat.append(('PowerOperator-%s-field' % p, "odl.PowerOperator(odl.RealNumbers(), %r)" % p, True))
@@ -1573,8 +1585,8 @@ LEVEL_NOTE = ('Validated, not proved: the O(h^2) rate; non-integer powers, Point
               'complex scalars/products, the remaining ~20 functionals, weighted/discretised spaces (theorems are for '
               'rn/cn with constant/array weightings and 1-d uniform_discr), finite-difference operators with pad_const -- all '
               'by central-difference probes on the '
-              'real objects. Exact arithmetic: rounding out of scope. Eight recorded findings (findings/C06.json) with '
-              'four proposed fixes. Axioms: classical reals, funext, classic as printed.')
+              'real objects. Exact arithmetic: rounding out of scope. Six open findings and three repaired ones '
+              '(findings/C06.json). Axioms: classical reals, funext, classic as printed.')
 TECHNIQUE = ('Coq proof by structural induction over a deep embedding of operator arithmetic (nested lists for block '
              'operators), with a curve-based (Hadamard) differentiability calculus on R^n built on the standard-library '
              'derivable_pt_lim; source-regenerated ufunc tables; in-Coq structural differential correspondence with a '
